@@ -705,6 +705,8 @@ def run(ctx):
         disagreements.append({"case": {"kill_runs": len(records)}, "model": "most selected kill points lie on the path", "impl": "only %d runs were killed" % n_killed})
     if not ctx.quick:
         for s in scns:
+            if s.get("skip_classes"):
+                continue        # a class that cannot be used for kills here hides the states right before its calls
             full_len = {k["guid"] + ".tmp": len(kkdrv.key_file_bytes(k)) for k in s["keys"]}
             seen = {summary_of(s, rec["obs"]) for rec in records if rec["killed"] and rec["scenario"] == s["name"]}
             for sm in summaries[s["name"]]:
